@@ -246,3 +246,13 @@ def poke(obj, rng, tr, how=None):
         for k in range(len(obj.A)):
             obj.A[k] = obj.A[k] * rng.integers(1, 3, size=obj.A[k].shape)
     tr.append(dict(ev='poke', site=i + 1, how=how))
+
+
+def relax(trace):
+    """results-only view of a TraceCanon trace (pass 2 of parallel.validate_chunks): the local factorization events are removed"""
+    out = []
+    for r in trace:
+        if r.get('ev') == 'step':
+            continue
+        out.append(dict(r, hooks_missing=True) if r.get('ev') == 'end' else r)
+    return out
